@@ -224,6 +224,46 @@ func tcBits[T safemath.Integer](x, y T) (T, error) {
 	return T(lz*100 + tz + total + bits.Len8(uint8(y)) + bits.TrailingZeros16(uint16(x)) + bits.LeadingZeros32(uint32(y))), nil
 }
 
+// type switch over the type parameter: bound variable, type assertion, multi-type case, error passed on with a converted
+// value, default path (the only one a defined type such as `type dU8 uint8` takes)
+func tcTypeSwitch[T safemath.Integer](x, y T) (T, error) {
+	switch v := any(x).(type) {
+	case uint8:
+		w := v + any(y).(uint8)
+		if w < v {
+			return 0, tcOverflow("+8", x, y)
+		}
+
+		return T(w), nil
+	case int64, int32:
+		if y == 0 {
+			return 0, tcDivZero(x)
+		}
+
+		return x / y, nil
+	case uint64:
+		r, err := safeAddCopy(v, uint64(y))
+
+		return T(r), err
+	}
+	sum, overflowed := tcAddWrapped(x, y)
+	if overflowed {
+		return 0, tcOverflow("+", x, y)
+	}
+
+	return sum - 1, nil
+}
+
+// a generic caller of a function with a type switch
+func tcViaSwitch[T safemath.Integer](x, y T) (T, error) {
+	r, err := tcTypeSwitch(y, x)
+	if err != nil {
+		return 0, err
+	}
+
+	return r ^ x, nil
+}
+
 // non-generic caller of generic functions, bits.Add64 / Sub64 / Mul64, uintptr and int arithmetic
 func tcWide(x, y uint64) (uint64, error) {
 	sum, carry := bits.Add64(x, y, 0)
